@@ -164,6 +164,44 @@ Section SeekBytes.
     | (_, b, OutOfFuel) => (OutOfFuel, blk_vpos b)
     | (_, b, Unmodelled) => (Unmodelled, blk_vpos b)
     end.
+  (* ---- seeks that are part of a history (wave 9): Reader::seek on the byte-level reader state,
+     so that calls can follow it.  inner.seek(Start(c)); position = c; read_block()?: on Err the
+     `?` returns and leaves the inner cursor wherever the failing frame left it, the position where
+     the loop had got to (c, or beyond the empty frames skipped) and the block as rnbs leaves it
+     (the previous block, untouched or invalidated, or a skipped empty frame); on Ok(0) an empty
+     block at the position; then set_position(u) (clamped). *)
+  Definition seek_b (fb : list N) (s : bst) (v : N) : bst * res N :=
+    let c := vcomp v in
+    let u := vuncomp v in
+    let src := bytes_from fb c in
+    match rnbs (S (length src)) src c (s_blk s) with
+    | (src', pos', b', Ok n) =>
+        let b1 := if n =? 0 then mkBlk pos' 0 0 0 else b' in
+        (mkBst src' pos' (mkBlk (k_pos b1) (k_size b1) (k_len b1) (N.min u (k_len b1))), Ok v)
+    | (src', pos', b', r) => (mkBst src' pos' b', r)
+    end.
+
+  Inductive bop := BRead (n : N) | BSeek (v : N).
+
+  Definition step_b (fb : list N) (s : bst) (o : bop) : bst * res N :=
+    match o with
+    | BRead n => read_b s n
+    | BSeek v => seek_b fb s v
+    end.
+
+  (* a history of read and seek calls that goes on after errors and after seeks to arbitrary
+     positions: per call (result: byte count / the position sought, position told afterwards) *)
+  Fixpoint hops_b (fb : list N) (s : bst) (ops : list bop) : list (res N * res N) :=
+    match ops with
+    | [] => []
+    | o :: r => let '(s', x) := step_b fb s o in (x, blk_vpos (s_blk s')) :: hops_b fb s' r
+    end.
+
+  Fixpoint state_b (fb : list N) (s : bst) (ops : list bop) : bst :=
+    match ops with
+    | [] => s
+    | o :: r => state_b fb (fst (step_b fb s o)) r
+    end.
 End SeekBytes.
 
 (* the correspondence-check entry: a valid history on the parsed file (frame-level model), then
@@ -174,3 +212,8 @@ Definition hseek_run (f : file) (fb : list N) (ops : list op) (v : N) : res N * 
 (* a fresh reader over arbitrary bytes, then read calls that go on after errors *)
 Definition hread_run (fb : list N) (ns : list N) : list (res N * res N) :=
   reads_b Inflate.inflate (mkBst fb 0 (mkBlk 0 0 0 0)) ns.
+
+(* a fresh reader over arbitrary bytes, then read AND seek calls that go on after errors, after
+   failed seeks and after seeks onto bytes that merely parse as a frame *)
+Definition hrs_run (fb : list N) (ops : list bop) : list (res N * res N) :=
+  hops_b Inflate.inflate fb (mkBst fb 0 (mkBlk 0 0 0 0)) ops.
